@@ -24,6 +24,8 @@ func runC12(r *Run, verifDir string) {
 		r.Unk("C12.A1", "registry", token.NoPos, "%s", s)
 	}
 	c12A1(r, reg)
+	// premise of the table-based discharges of A1: a decoded standard attribute always carries its typed value
+	attrDecoderSetsValue(r, "C12.A1")
 	c12A2(r)
 	c12A3(r)
 	c12A4(r)
